@@ -52,17 +52,21 @@ func (t *Text) Draw(ctx vxfw.DrawContext) (vxfw.Surface, error) {
 			return s, nil
 		}
 		chars := ctx.Characters(scanner.Text())
+		// The line is only truncated when it doesn't fit
+		var lineWidth int
+		for _, char := range chars {
+			lineWidth += char.Width
+		}
+		truncate := lineWidth > int(ctx.Max.Width)
 	cols:
-		for i, char := range chars {
+		for _, char := range chars {
 			if col >= ctx.Max.Width {
 				break
 			}
 
-			// If this char would get us to or beyond the max width
-			// (and we aren't the last char), then we print an
-			// ellipse
-			if col+uint16(char.Width) >= ctx.Max.Width &&
-				i < len(chars) {
+			// If the line doesn't fit and this char would get us
+			// to or beyond the max width, then we print an ellipse
+			if truncate && col+uint16(char.Width) >= ctx.Max.Width {
 				cell := vaxis.Cell{
 					Character: vaxis.Character{
 						Grapheme: "…",
